@@ -344,6 +344,7 @@ void ObserverAction::step(CoreParams const& params, CoreStateHost& state) const
             // bracket: rounding only for linear propagation; in a magnetic field the step to a
             // boundary intercept is accurate to the driver's configured delta_intersection
             j["rL_chordlo"] = chord * (1 - 1e-9) - 1e-12 - sh_->chord_tol;
+            j["rL_chordlo2"] = chord * (1 - 0.02) - 1e-12 - sh_->chord_tol;  // scope of F-MSC-1
             {
                 char buf[96];
                 std::snprintf(buf, sizeof(buf), "%.17g/%.17g", sim.step_length(), chord);
@@ -641,6 +642,7 @@ int main(int argc, char** argv)
     po.rng_seed = seed * 7919u + 13u;
     po.table_scale = scale;
     po.field_tesla = argval<double>(kv, "field", 0.0);
+    po.msc = argval<int>(kv, "msc", 0) != 0;
     if (po.field_tesla != 0)
         sh.chord_tol = FieldDriverOptions{}.delta_intersection * 1.001;
     if (!script_path.empty())
@@ -767,6 +769,7 @@ int main(int argc, char** argv)
         rec.add({{"e", "Config"}, {"nslots", int(nslots)}, {"initcap", int(initcap)}, {"seccap", int(seccap)},
                  {"order", order}, {"parts", parts}, {"cbs", cbs}, {"seed", int(seed)}, {"fluct", fluct},
                  {"quantum", rec.quantum},
+                 {"msc", po.msc}, {"field", po.field_tesla != 0},
                  {"stepbins", sdiag ? int(sdiag->calc_steps().at(0).size()) : 0}, {"diag", diag != 0}});
 
         long iters = 0;
